@@ -1258,3 +1258,157 @@ Proof.
   apply (proj1 (list_eqb_spec str_eqb str_eqb_eq _ _)) in H. apply N.eqb_eq in G7. apply N.leb_le in G6.
   repeat split; assumption.
 Qed.
+
+(* ---- the SPAWN PATH: mode x cwd x the call's own env ------------------------------------------------------------------ *)
+Lemma filter_filter {A} (f g : A -> bool) l : filter f (filter g l) = filter (fun x => g x && f x) l.
+Proof.
+  induction l as [|x l IH]; [reflexivity|]. cbn [filter]. destruct (g x) eqn:G; cbn [filter andb]; [|exact IH].
+  destruct (f x); [f_equal|]; exact IH.
+Qed.
+Lemma filter_ext_eq {A} (f g : A -> bool) l : (forall x, f x = g x) -> filter f l = filter g l.
+Proof. intros H. induction l as [|x l IH]; [reflexivity|]. cbn [filter]. rewrite H, IH. reflexivity. Qed.
+
+Lemma cm_env_fold_remove names : forall c,
+  cm_env (fold_left cmd_env_remove names c) = filter (fun kv => negb (existsb (str_eqb (fst kv)) names)) (cm_env c).
+Proof.
+  induction names as [|n ns IH]; intros c; cbn [fold_left].
+  - cbn [existsb negb]. symmetry. induction (cm_env c) as [|x l IHl]; [reflexivity|]. cbn [filter]. f_equal. exact IHl.
+  - rewrite IH. unfold cmd_env_remove at 1. cbn [cm_env]. unfold env_remove. rewrite filter_filter.
+    apply filter_ext_eq. intros kv. cbn [existsb]. rewrite negb_orb. reflexivity.
+Qed.
+Lemma cm_env_fold_set ov : forall c, cm_env (fold_left cmd_env_set ov c) = fold_left env_set ov (cm_env c).
+Proof. induction ov as [|kv ov IH]; intros c; cbn [fold_left]; [reflexivity|]. rewrite IH. reflexivity. Qed.
+
+(* the removal loop over secret_env_names() makes the environment of the command the stripped environment *)
+Lemma strip_loop_is_spawn_env r e d :
+  cm_env (fold_left cmd_env_remove (stripped_names r) (cmd_dir (cmd_new e) d)) = spawn_env r e.
+Proof. rewrite cm_env_fold_remove. reflexivity. Qed.
+
+Lemma getenv_env_remove_other e k' k : str_eqb k' k = false -> getenv (env_remove e k') k = getenv e k.
+Proof.
+  intros NE. unfold env_remove. induction e as [|[n v] e IH]; [reflexivity|]. cbn [filter fst].
+  destruct (str_eqb n k') eqn:E1; cbn [negb getenv].
+  - apply str_eqb_eq in E1. subst n. rewrite NE. exact IH.
+  - destruct (str_eqb n k); [reflexivity | exact IH].
+Qed.
+(* the call's own `env`: the last pair naming k decides, otherwise the variable is what it was *)
+Lemma getenv_fold_set ov : forall base k,
+  getenv (fold_left env_set ov base) k = match getenv (rev ov) k with Some v => Some v | None => getenv base k end.
+Proof.
+  induction ov as [|kv ov IH] using rev_ind; intros base k; [reflexivity|].
+  rewrite fold_left_app. cbn [fold_left]. rewrite rev_app_distr. cbn [rev app]. destruct kv as [k' v']. unfold env_set at 1.
+  cbn [getenv fst]. destruct (str_eqb k' k) eqn:E; [reflexivity|].
+  rewrite getenv_env_remove_other by exact E. apply IH.
+Qed.
+
+(* every site: the child's environment is a function of the STRIPPED environment and of the request *)
+Lemma site_cmd_env m r e q : m = missing_dir_fails (site_of (sp_via q)) ->
+  option_map cm_env (site_cmd true m r e q) = child_env_of (spawn_env r e) q.
+Proof.
+  intros ->. unfold site_cmd, child_env_of. destruct (sp_cwd q) as [raw|].
+  - destruct (cwd_refused raw); [reflexivity|].
+    destruct (sp_dir_exists q || negb (missing_dir_fails (site_of (sp_via q)))); [|reflexivity].
+    cbn [option_map]. rewrite cm_env_fold_set, strip_loop_is_spawn_env. reflexivity.
+  - cbn [option_map]. rewrite cm_env_fold_set, strip_loop_is_spawn_env. reflexivity.
+Qed.
+Theorem child_env_factors_through_the_stripped_environment : forall r e q,
+  child_env r e q = child_env_of (spawn_env r e) q.
+Proof.
+  intros r e q. unfold child_env, spawn_cmd, tool_cmd, pipes_cmd, pty_cmd.
+  destruct (site_of (sp_via q)) eqn:S; apply site_cmd_env; rewrite S; reflexivity.
+Qed.
+
+Lemma child_env_of_getenv base q ce k :
+  child_env_of base q = Some ce ->
+  getenv ce k = match getenv (rev (req_env q)) k with Some v => Some v | None => getenv base k end.
+Proof.
+  unfold child_env_of. intros H.
+  assert (G : Some ce = Some (fold_left env_set (req_env q) base)).
+  { destruct (sp_cwd q) as [raw|]; [|symmetry; exact H].
+    destruct (cwd_refused raw); [discriminate|].
+    destruct (sp_dir_exists q || negb (missing_dir_fails (site_of (sp_via q)))); [symmetry; exact H | discriminate]. }
+  injection G as ->. apply getenv_fold_set.
+Qed.
+
+(* EVERY way of spawning (tool / pipes task / pty task; execution_mode given or absent), EVERY `cwd` argument (absent, below the
+   root, the root, missing, refused), EVERY `env` argument, every title: a credential variable is in the child's environment only
+   with the value the call itself supplied *)
+Theorem every_spawn_path_strips : spawn_path_strips spawn_cmd.
+Proof.
+  intros r e q c k H I.
+  assert (C : child_env r e q = Some (cm_env c)) by (unfold child_env; rewrite H; reflexivity).
+  rewrite child_env_factors_through_the_stripped_environment in C.
+  rewrite (child_env_of_getenv _ _ _ k C). rewrite (spawn_env_no_stripped r e k I).
+  destruct (getenv (rev (req_env q)) k); reflexivity.
+Qed.
+Corollary child_without_own_env_sees_no_credential : forall r e q ce k,
+  child_env r e q = Some ce -> In k (stripped_names r) -> sp_env q = None -> getenv ce k = None.
+Proof.
+  intros r e q ce k H I N. unfold child_env in H. destruct (spawn_cmd r e q) as [c|] eqn:S; [|discriminate].
+  injection H as <-. rewrite (every_spawn_path_strips r e q c k S I). unfold req_env. rewrite N. reflexivity.
+Qed.
+
+(* two environments of the authority that differ only in credential variables give every child the same environment, however
+   it is spawned *)
+Theorem child_env_noninterference : forall r e1 e2 q,
+  spawn_env r e1 = spawn_env r e2 -> child_env r e1 q = child_env r e2 q.
+Proof. intros r e1 e2 q H. rewrite !child_env_factors_through_the_stripped_environment, H. reflexivity. Qed.
+
+(* over TIME: a configuration loaded at any earlier moment of the process has its credential variables removed from every child *)
+Lemma stripped_mono_fold hist : forall r k, In k (stripped_names r) -> In k (stripped_names (fold_left reg_load hist r)).
+Proof.
+  induction hist as [|x xs IH]; intros r k I; cbn [fold_left]; [exact I|]. apply IH. apply stripped_mono. exact I.
+Qed.
+Lemma loaded_in_history hist : forall r w k,
+  In w hist -> In k (secret_env_names w) -> In k (stripped_names (fold_left reg_load hist r)).
+Proof.
+  induction hist as [|x xs IH]; intros r w k Iw Ik; [destruct Iw|]. cbn [fold_left]. destruct Iw as [->|Iw].
+  - apply stripped_mono_fold. apply loaded_names_stripped. exact Ik.
+  - apply (IH _ w); assumption.
+Qed.
+Theorem child_env_follows_the_loaded_configurations : forall hist w e q ce k,
+  In w hist -> In k (secret_env_names w) ->
+  child_env (reg_after hist) e q = Some ce ->
+  getenv ce k = getenv (rev (req_env q)) k.
+Proof.
+  intros hist w e q ce k Iw Ik H. unfold child_env in H. destruct (spawn_cmd (reg_after hist) e q) as [c|] eqn:S; [|discriminate].
+  injection H as <-. apply (every_spawn_path_strips _ _ _ _ _ S). unfold reg_after. apply (loaded_in_history hist [] w k Iw Ik).
+Qed.
+
+(* the seeded behaviour (C19-8: removal loop only on the branch without `cwd`, in run_pipes_task) does not have the property *)
+Definition cwdleak_env : env := [(E_API_KEY, lit "sk-AAAA"); (lit "HOME", lit "/home/u")].
+Definition cwdleak_req (cwd : option str) : spawn_req := mkSpawn (VTask None) cwd true None None.
+Lemma cwd_unstripped_pipes_task_with_cwd_sees_the_key :
+  option_map cm_env (spawn_cmd_cwd_unstripped [] cwdleak_env (cwdleak_req (Some (lit "sub")))) = Some cwdleak_env.
+Proof. vm_compute. reflexivity. Qed.
+Lemma cwd_unstripped_pipes_task_without_cwd_does_not :
+  option_map cm_env (spawn_cmd_cwd_unstripped [] cwdleak_env (cwdleak_req None)) = Some [(lit "HOME", lit "/home/u")].
+Proof. vm_compute. reflexivity. Qed.
+Lemma faithful_pipes_task_with_cwd_does_not :
+  child_env [] cwdleak_env (cwdleak_req (Some (lit "sub"))) = Some [(lit "HOME", lit "/home/u")].
+Proof. vm_compute. reflexivity. Qed.
+Theorem strip_only_without_cwd_refuted : ~ spawn_path_strips spawn_cmd_cwd_unstripped.
+Proof.
+  intros H.
+  destruct (spawn_cmd_cwd_unstripped [] cwdleak_env (cwdleak_req (Some (lit "sub")))) as [c|] eqn:S; [|vm_compute in S; discriminate].
+  assert (G := H [] cwdleak_env (cwdleak_req (Some (lit "sub"))) c E_API_KEY S (or_introl eq_refl)).
+  assert (C : option_map cm_env (Some c) = Some cwdleak_env) by (rewrite <- S; exact cwd_unstripped_pipes_task_with_cwd_sees_the_key).
+  cbn [option_map] in C. injection C as C. rewrite C in G. vm_compute in G. discriminate.
+Qed.
+
+(* non-vacuity: the call's own `env` reaches the child (also when it names a credential variable: the call's value, not the
+   authority's), a refused / missing directory spawns nothing, the three sites are reached *)
+Lemma call_env_reaches_the_child :
+  child_env [lit "ACME_LLM_TOKEN"] ((lit "ACME_LLM_TOKEN", lit "sk-BBBB") :: cwdleak_env)
+            (mkSpawn (VTask (Some XPty)) (Some (lit "./sub/")) true
+                     (Some [(E_API_KEY, lit "from-the-call"); (lit "EXTRA", lit "1")]) (Some (lit "t")))
+  = Some [(lit "EXTRA", lit "1"); (E_API_KEY, lit "from-the-call"); (lit "HOME", lit "/home/u")].
+Proof. vm_compute. reflexivity. Qed.
+Lemma refused_and_missing_directories_spawn_nothing :
+  child_env [] cwdleak_env (mkSpawn VTool (Some (lit "../outside")) false None None) = None
+  /\ child_env [] cwdleak_env (mkSpawn VTool (Some (lit "/usr")) true None None) = None
+  /\ child_env [] cwdleak_env (mkSpawn (VTask (Some XPipes)) (Some (lit "a/../b")) true None None) = None
+  /\ child_env [] cwdleak_env (mkSpawn (VTask (Some XPipes)) (Some (lit "nope/missing")) false None None) = None
+  /\ child_env [] cwdleak_env (mkSpawn (VTask (Some XPipes)) (Some (lit "..hidden/x..")) true None None) = Some [(lit "HOME", lit "/home/u")]
+  /\ child_env [] cwdleak_env (mkSpawn (VTask (Some XPty)) (Some (lit "nope/missing")) false None None) = Some [(lit "HOME", lit "/home/u")].
+Proof. vm_compute. repeat split; reflexivity. Qed.
